@@ -77,6 +77,14 @@ def _exerciser_prog(r, names):
         call = ['call', r.choice(['match_all', 'match_groups']), [['str', subj], ['str', pat]], gen.sugar(r, 2)]
         return ['block', [r.choice([['call', 'push', [call, ['num', '99']], gen.sugar(r, 2)], ['call', 'pop', [call], gen.sugar(r, 1)],
                                     ['call', 'insert', [call, ['num', '0'], ['str', 'z']], 'plain'], call, call])]]
+    if r.random() < 0.1:
+        # a builtin that fails half-way through nested data, and the same builtin on plain data (before or after)
+        nested = ['dict', [[['str', 'a'], ['dict', [[['str', 'b'], ['num', '1']]]]], [['str', 'c'], ['num', '2']]]]
+        flat = ['dict', [[['str', 'bread'], ['num', '1']], [['str', 'milk'], ['num', '2']]]]
+        return ['block', [r.choice([['call', 'pretty', [nested, ['num', '2']], gen.sugar(r, 2)], ['call', 'pretty', [flat], gen.sugar(r, 1)],
+                                    ['call', 'pretty', [flat], 'pipebare'], ['call', 'pretty', [nested], gen.sugar(r, 1)],
+                                    ['call', 'pretty', [nested, ['list', []]], 'plain'], ['call', 'sorted', [nested, ['num', '1']], 'plain'],
+                                    ['call', 'join', [['list', [['list', []], nested]], ['num', '0']], 'plain']])]]
     t = None
     for d in range(r.choice([1, 2, 2, 3])):
         nm = r.choice(TABLE)
@@ -90,7 +98,7 @@ def _exerciser_prog(r, names):
 
 
 LITS = {'L': ['list', [['num', '3'], ['num', '1'], ['num', '2']]], 'LS': ['list', [['str', 'b'], ['str', 'a']]], 'NL': ['list', [['list', [['num', '2']]], ['list', []]]],
-        'D': ['dict', [[['str', 'b'], ['num', '2']], [['str', 'a'], ['num', '1']]]], 'ND': ['dict', [[['str', 'x'], ['list', [['num', '1']]]]]],
+        'D': ['dict', [[['str', 'b'], ['num', '2']], [['str', 'a'], ['num', '1']]]], 'ND': ['dict', [[['str', 'x'], ['list', [['num', '1']]]], [['str', 'y'], ['dict', [[['str', 'k'], ['str', 'v']]]]]]],
         'S': ['str', 'a1 b22 c'], 'N': ['num', '2.5'], 'I': ['num', '7'], 'E': ['list', []], 'HL': ['list', [['list', [['num', '1']]], ['str', 'x']]]}
 
 
